@@ -112,7 +112,7 @@ def _corpus_violations(pid: str, tier: str):
             per.setdefault(clause, []).append(idx)
         if cont is not None and pid == "C19":
             for clause, idxs in per.items():
-                if clause.split("_")[0] in ("C03", "C04", "C07", "C08"):
+                if clause.split("_")[0] in ("C03", "C04", "C07", "C08") or clause == "RunCrashed":   # "the loaded tree can be run further"
                     viols.append(Violation("C19", "C19_ContinuationValid",
                                            f"C19_ContinuationValid ({clause}) trace={r['name']} event={idxs[0]}",
                                            {"events": idxs[:10], "trace": r["name"], "clause": clause}))
